@@ -24,6 +24,17 @@ import (
 type Kind int32
 type Label string
 
+// Shifted and Loud are named scalar types that implement driver.Valuer with a Value() that is NOT their
+// underlying value: Shifted(7) serializes to 8, Loud("a") to "a!".  As filter / limit values they look like
+// int64(7) / "a" to anything that compares underlying values, but the SQL carries what Value() returns.
+type Shifted int64
+
+func (s Shifted) Value() (driver.Value, error) { return int64(s) + 1, nil }
+
+type Loud string
+
+func (l Loud) Value() (driver.Value, error) { return string(l) + "!", nil }
+
 // users: auto-increment single primary key; the shard column is an ordinary column.
 type User struct {
 	Id    int64 `sql:",primary"`
@@ -188,6 +199,10 @@ func scalarType(t string) reflect.Type {
 		return reflect.TypeOf(uint64(0))
 	case "Kind":
 		return reflect.TypeOf(Kind(0))
+	case "Shifted":
+		return reflect.TypeOf(Shifted(0))
+	case "Loud":
+		return reflect.TypeOf(Loud(""))
 	case "string":
 		return reflect.TypeOf("")
 	case "Label":
@@ -220,7 +235,7 @@ func (g GV) Go(p Pool) interface{} {
 		v.Elem().Set(reflect.ValueOf(g.Elem.Go(p)))
 		p[g.Addr] = v
 		return v.Interface()
-	case "string", "Label":
+	case "string", "Label", "Loud":
 		return reflect.ValueOf(g.S).Convert(scalarType(g.T)).Interface()
 	case "bool":
 		return g.B
@@ -284,6 +299,10 @@ func (g GV) Coq() string {
 		return "GNilBytes"
 	case "Kind":
 		return `(GInt KI32 "Kind" ` + vh.CoqZ(g.Z) + ")"
+	case "Shifted":
+		return `(GCustom "Shifted" (GInt KI64 "" ` + vh.CoqZ(g.Z) + `) (DInt ` + vh.CoqZ(g.Z+1) + `))`
+	case "Loud":
+		return `(GCustom "Loud" (GStr "" ` + vh.CoqString(g.S) + `) (DStr ` + vh.CoqString(g.S+"!") + `))`
 	}
 	if k, ok := intKinds[g.T]; ok {
 		return "(GInt " + k + ` "" ` + vh.CoqZ(g.Z) + ")"
@@ -434,6 +453,11 @@ func (t *TableDesc) CoqStored(row []driver.Value) string {
 func DriverOf(c *ColDesc, v interface{}) interface{} {
 	if v == nil {
 		return nil
+	}
+	if dv, ok := v.(driver.Valuer); ok && !(reflect.ValueOf(v).Kind() == reflect.Ptr && reflect.ValueOf(v).IsNil()) {
+		if out, err := dv.Value(); err == nil {
+			return out
+		}
 	}
 	rv := reflect.ValueOf(v)
 	if rv.Kind() == reflect.Ptr {
